@@ -84,7 +84,7 @@ SameHdr(w, m) == w.sid = m.sid /\ w.ty = m.ty /\ w.min = m.min /\ w.fl = m.fl /\
 
 NoReq == [sid |-> <<0,0,0,0>>, seq |-> 0, ty |-> 0, min |-> 0, fl |-> 0, maj |-> 0]
 ObsInit == [req |-> NoReq, full |-> FALSE, hv |-> FALSE, cls |-> "U", rej |-> FALSE, pend |-> FALSE,
-            inv |-> 0, wr |-> 0, restart |-> FALSE, next |-> -1, closed |-> FALSE, cb |-> <<-1>>,
+            inv |-> 0, wr |-> 0, restart |-> FALSE, next |-> -1, closed |-> FALSE, cb |-> <<-1>>, repk |-> "",
             hi |-> [s \in TSID |-> 0], regd |-> [s \in TSID |-> -1], bad |-> {}]
 
 ErrStatus(ty) == CASE ty = 1 -> 7 [] ty = 2 -> 17 [] ty = 3 -> 2 [] OTHER -> -1
@@ -144,10 +144,12 @@ ObsWr(e) ==
            IN [o EXCEPT !.wr = @ + 1, !.bad = @ \cup new]
       ELSE \* a handler's reply
            LET clr == WClrTab[l]
-               d == IF w.ty \in {1,2,3} THEN Dec(ReplyKind(w.ty), clr) ELSE Bad
-               restart == d.ok /\ w.ty = 1 /\ d.v.status = 6
+               \* the body is of the kind the handler handed to Reply (normally the reply kind of the packet type)
+               kind == IF o.repk # "" THEN o.repk ELSE IF w.ty \in {1,2,3} THEN ReplyKind(w.ty) ELSE "AuthenReply"
+               d == Dec(kind, clr)
+               restart == d.ok /\ kind = "AuthenReply" /\ d.v.status = 6
                new == Tags({ << ~( lenok /\ w.maj = 12 /\ S!ReplyMirrors(o.req, w, restart) ), "C06" >>,
-                             << lenok /\ ~( d.ok /\ Valid(ReplyKind(w.ty), d.v) ), "C06" >>,
+                             << lenok /\ ~( d.ok /\ Valid(kind, d.v) ), "C06" >>,
                              \* what is on the wire is the handler's clear body XOR the pad (or verbatim with the clear flag)
                              << o.cb # <<-1>> /\ clr # o.cb, "C03" >> })
            IN [o EXCEPT !.wr = @ + 1, !.restart = restart, !.bad = @ \cup new,
@@ -167,7 +169,11 @@ Settle(closing) ==
                      \* an accepted request: exactly one reply (none for 255), unless RESTART answers 255 (left open)
                      << o.inv >= 1 /\ ~(o.req.seq = 255 /\ o.restart) /\ o.wr # S!RepliesExpected(o.req.seq, o.restart), "C07" >>,
                      \* a complete, acceptable request that was neither handled nor refused
-                     << o.full /\ ~mustrej /\ o.inv = 0 /\ ~closing, "C07" >> })
+                     << o.full /\ ~mustrej /\ o.inv = 0 /\ ~closing, "C07" >>,
+                     \* a complete request that is well-formed under the connection's secret (or sent in the clear) and in sequence
+                     \* was not delivered at all: the receiver did not recover what the sender wrote
+                     << o.full /\ ~mustrej /\ o.cls = "W" /\ o.inv = 0 /\ closing /\ o.wr = 0, "C03" >>,
+                     << o.full /\ ~mustrej /\ o.cls = "W" /\ o.inv = 0 /\ closing /\ o.wr = 0, "C05" >> })
        fin == o.inv >= 1 /\ o.next = -1
    IN [o EXCEPT !.pend = FALSE, !.bad = @ \cup new,
                 !.hi = IF o.inv >= 1 /\ s \in TSID THEN [@ EXCEPT ![s] = IF fin THEN 0 ELSE @] ELSE @,
@@ -182,7 +188,7 @@ ObsNext(e) ==
      [] e.e = "feed"    -> ObsFeed(e)
      [] e.e = "inv"     -> ObsInv(e)
      [] e.e = "reg"     -> [o EXCEPT !.next = e.id]
-     [] e.e = "rep"     -> [o EXCEPT !.cb = IF "cb" \in DOMAIN e /\ e.op # "badreply" THEN e.cb ELSE <<-1>>]
+     [] e.e = "rep"     -> [o EXCEPT !.cb = IF "cb" \in DOMAIN e /\ e.op # "badreply" THEN e.cb ELSE <<-1>>, !.repk = e.k]
      [] e.e = "wr"      -> ObsWr(e)
      [] e.e = "rdblock" -> Settle(FALSE)
      [] e.e = "cl"      -> [Settle(TRUE) EXCEPT !.closed = TRUE]
@@ -215,7 +221,7 @@ Model(e) ==
                            /\ Stutter
      [] e.e = "reg"     -> pc = "run" /\ cur.ops # <<>> /\ Head(cur.ops) = "next" /\ S!HStep(e.id)
      [] e.e = "rep"     -> pc = "run" /\ cur.ops # <<>> /\ Head(cur.ops) = e.op /\ Stutter
-     [] e.e = "rseq"    -> /\ pc = "run" /\ cur.ops # <<>> /\ Head(cur.ops) \in {"reply", "restart", "badreply"}
+     [] e.e = "rseq"    -> /\ pc = "run" /\ cur.ops # <<>> /\ Head(cur.ops) \in {"reply", "restart", "badreply", "xreply"}
                            /\ e.merr = (Head(cur.ops) = "badreply")
                            /\ S!HStep(0)
                            /\ (~e.merr => e.seq = resp'.seq)
